@@ -1280,9 +1280,8 @@ impl RaftLogManager {
                 if is_remove {
                     pop_count += 1;
                 }
-            } else {
-                break;
             }
+            // a file that ends at or below the cut is left alone; the later ones still have to be cut
         }
         if pop_count > 0 {
             let log_count = self.logs.len() - pop_count;
